@@ -149,6 +149,101 @@ func shapeOf(f fn) string {
 	if d.Body == nil {
 		return "other"
 	}
+	// alpha-normalise: receiver, parameters and locals get canonical names, so that a harmless
+	// renaming of a variable does not change the shape
+	ren := map[string]string{}
+	if d.Recv != nil && len(d.Recv.List) == 1 && len(d.Recv.List[0].Names) == 1 {
+		switch f.recv {
+		case "Statement":
+			ren[d.Recv.List[0].Names[0].Name] = "s"
+		case "Group":
+			ren[d.Recv.List[0].Names[0].Name] = "g"
+		}
+	}
+	nparam := 0
+	var paramNames []string
+	for _, p := range d.Type.Params.List {
+		for _, n := range p.Names {
+			nparam++
+			canon := fmt.Sprintf("p%d", nparam)
+			if _, isFunc := p.Type.(*ast.FuncType); isFunc {
+				canon = "f"
+			}
+			if n.Name == "code" {
+				canon = "code"
+			}
+			ren[n.Name] = canon
+			paramNames = append(paramNames, n.Name)
+		}
+	}
+	nlocal := 0
+	ast.Inspect(d.Body, func(n ast.Node) bool {
+		if as, ok := n.(*ast.AssignStmt); ok && as.Tok == token.DEFINE {
+			for _, l := range as.Lhs {
+				if id, ok := l.(*ast.Ident); ok {
+					if _, seen := ren[id.Name]; !seen {
+						nlocal++
+						canon := id.Name
+						// the conventional local names of the generated bodies
+						switch {
+						case f.recv == "Group" && nlocal == 1:
+							canon = "s"
+						case f.recv == "Statement" && nlocal == 2 && len(as.Rhs) == 1:
+							if cl, ok := as.Rhs[0].(*ast.CompositeLit); ok {
+								if t, ok := cl.Type.(*ast.Ident); ok && t.Name == "token" {
+									canon = "t2"
+								}
+							}
+						case f.recv == "Statement" && nlocal == 1 && len(as.Rhs) == 1:
+							switch rhs := as.Rhs[0].(type) {
+							case *ast.UnaryExpr:
+								canon = "g"
+								_ = rhs
+							case *ast.CompositeLit:
+								if t, ok := rhs.Type.(*ast.Ident); ok {
+									switch t.Name {
+									case "token":
+										canon = "t"
+									case "tag", "comment":
+										canon = "c"
+									}
+								}
+							}
+						}
+						ren[id.Name] = canon
+					}
+				}
+			}
+		}
+		return true
+	})
+	ast.Inspect(d.Body, func(n ast.Node) bool {
+		switch x := n.(type) {
+		case *ast.KeyValueExpr:
+			// field names of composite literals are not variables
+			ast.Inspect(x.Value, func(m ast.Node) bool {
+				if id, ok := m.(*ast.Ident); ok {
+					if c, ok := ren[id.Name]; ok {
+						id.Name = c
+					}
+				}
+				return true
+			})
+			return false
+		case *ast.SelectorExpr:
+			if id, ok := x.X.(*ast.Ident); ok {
+				if c, ok := ren[id.Name]; ok {
+					id.Name = c
+				}
+			}
+			return false
+		case *ast.Ident:
+			if c, ok := ren[x.Name]; ok {
+				x.Name = c
+			}
+		}
+		return true
+	})
 	stmts := d.Body.List
 	txt := make([]string, len(stmts))
 	for i, s := range stmts {
@@ -159,10 +254,14 @@ func shapeOf(f fn) string {
 		for _, p := range d.Type.Params.List {
 			_, variadic := p.Type.(*ast.Ellipsis)
 			for _, n := range p.Names {
+				nm := n.Name
+				if c, ok := ren[nm]; ok {
+					nm = c
+				}
 				if variadic {
-					names = append(names, n.Name+"...")
+					names = append(names, nm+"...")
 				} else {
-					names = append(names, n.Name)
+					names = append(names, nm)
 				}
 			}
 		}
@@ -193,7 +292,7 @@ func shapeOf(f fn) string {
 				}
 				return "stmtAppendToken"
 			}
-			if n == 4 && strings.HasPrefix(txt[0], "d := token{") && strings.HasPrefix(txt[1], "t := token{") && last == "*s = append(*s, d, t)" {
+			if n == 4 && strings.HasPrefix(txt[0], "t := token{") && strings.HasPrefix(txt[1], "t2 := token{") && last == "*s = append(*s, t, t2)" {
 				return "stmtAppendToken"
 			}
 			if n == 3 && (strings.HasPrefix(txt[0], "c := tag{") || strings.HasPrefix(txt[0], "c := comment{")) && last == "*s = append(*s, c)" {
